@@ -121,7 +121,7 @@ Section NoFail.
   Lemma post_one_total cfg kv' b s q : post_one F cfg kv' b s q <> QPanic.
   Proof.
     unfold post_one. destruct (q_inputs q); [|discriminate].
-    destruct (sample_at F kv' b (q_ibatch q)) as [t vis].
+    destruct (sample_at F cfg kv' b (q_ibatch q)) as [t vis].
     destruct ((0 <=? eosTok cfg) && (t =? eosTok cfg)); [discriminate|].
     destruct (find_stop _ _); [|discriminate]. destruct (truncate_stop _ _). discriminate.
   Qed.
